@@ -115,14 +115,6 @@ fn relabelled(a: &AbsGraph, r: &mut Rng) -> (AbsGraph, Vec<usize>) {
     (AbsGraph { directed: a.directed, n: a.n, edges: es }, p)
 }
 
-/// a Graph whose node i has index i (no shuffling), for page_rank's relabelling comparison
-fn plain_graph<Ty: petgraph::EdgeType>(a: &AbsGraph) -> Graph<u32, i64, Ty, u32> {
-    let mut g = Graph::default();
-    for i in 0..a.n { g.add_node(i as u32); }
-    for &(s, t, w) in &a.edges { g.add_edge(NodeIndex::new(s), NodeIndex::new(t), w); }
-    g
-}
-
 macro_rules! view_hdr {
     ($g:expr, $eid:expr, $ecount:expr, $ebound:expr, $id:expr, $enc:expr, $out:expr, $dump:ident) => {{
         let (hdr, ops) = $dump($g, $eid, $ecount, $ebound, &[$enc as i64]);
